@@ -76,5 +76,13 @@ pub trait Both {
 }
 impl Both for P { type Inner = P; fn inner(&self) -> &P { self } fn finish(self) -> u32 { assert!(self.ok()); self.id ^ 0x55 } }
 
+/// generic trait (its vtable depends on the trait's type parameter), alone and as an aliased
+/// optional member of a group
+#[cglue_trait]
+pub trait Gen<T> { fn gen_get(&self, v: T) -> T; }
+impl Gen<u32> for P { fn gen_get(&self, v: u32) -> u32 { assert!(self.ok()); self.id ^ v } }
+cglue_trait_group!(GG, { Look }, { Gen<u32> = GenU32 });
+cglue_impl_group!(P, GG, { Gen<u32> = GenU32 });
+
 #[cfg(kani)]
 mod verif;
